@@ -242,7 +242,8 @@ def dispatchC19M (op : String) (j : Json) : M Json := do
       let dicts ← (← fArr j "dicts").mapM parseDict
       let steps ← fArr j "steps"
       -- the code version: `Fixes.current` unless the case names the repairs it was run against
-      -- (scratch-worktree runs of the pending patches: C19_FIXES=clip,ext,errstate)
+      -- (scratch-worktree runs against other code versions, e.g. C19_FIXES=clip,ext for the code
+      -- before fa5dbd7)
       let fx : Fixes := match fOpt j "fixes" with
         | some (.str s) =>
             let l := s.splitOn ","
